@@ -485,7 +485,16 @@ def _byte_copy(ctx):
             continue
         # out << str.length() … out << str   (whole string, not c_str())
         wrote_len = any(c.get("k") == "call" and callee_short(c) in ("length", "size") for c in f.walk())
-        cstr = [c for c in f.walk() if c.get("k") == "call" and callee_short(c) in ("c_str", "data")]
+        # a NUL-terminated view handed to operator<< stops at the first NUL byte; write(data(), size()) does not
+        cstr = []
+        for c in f.walk():
+            if c.get("k") == "call" and callee_short(c) in ("c_str", "data"):
+                par = next(f.ancestors(c), None)
+                while par is not None and par.get("k") == "cast":
+                    par = next(f.ancestors(par), None)
+                if par is not None and par.get("k") == "call" and callee_short(par) in ("write", "sputn") and any(y.get("k") == "call" and callee_short(y) in ("size", "length") for y in walk(par)):
+                    continue
+                cstr.append(c)
         ctx.ob("R12.5", "idf_output_string(std::string)|writes-whole-string", wrote_len and not cstr, f.loc(),
                "writes the length and the std::string itself (a c_str() would stop at the first NUL byte)")
     # R12.6: a std::string read back replaces whatever the destination held (readers reuse one element object for a
